@@ -42,6 +42,7 @@ Init(cfg) ==
      censusOn |-> FALSE, censusSum |-> [c |-> 0, s |-> 0],
      \* error causes per endpoint and stream: set of <<kind, code>> ; code -2 = not comparable
      cause |-> [c |-> EmptyMap, s |-> EmptyMap],
+     lreset |-> [c |-> EmptyMap, s |-> EmptyMap],      \* codes of the application's own send_reset() calls per stream
      connCause |-> [c |-> {}, s |-> {}],
      faulted |-> [c |-> FALSE, s |-> FALSE],
      panicked |-> [c |-> FALSE, s |-> FALSE],
@@ -219,7 +220,11 @@ Surfacing(a, e, l) ==
     ELSE IF e.res = "err" /\ er.kind = "io"
     THEN Check(a, "C17.surface_io", a.faulted[ep], l, ep, s, er.iokind)
     ELSE IF e.call = "poll_reset" /\ e.res = "ok"
-    THEN Check(a, "C17.poll_reset", <<"reset", CodeOf(e)>> \in Get(a.cause[ep], s, {}), l, ep, s, <<CodeOf(e), Get(a.cause[ep], s, {})>>)
+    THEN \* the reason of the peer's reset - or of the application's own one (which of the two when both exist: C17.peer_reset_overridden)
+         Check(a, "C17.poll_reset", <<"reset", CodeOf(e)>> \in Get(a.cause[ep], s, {}) \cup Get(a.lreset[ep], s, {}), l, ep, s,
+               <<CodeOf(e), Get(a.cause[ep], s, {}), Get(a.lreset[ep], s, {})>>)
+    ELSE IF e.call = "send_reset" /\ e.res = "ok"
+    THEN [a EXCEPT !.lreset[ep] = Put(a.lreset[ep], s, Get(a.lreset[ep], s, {}) \cup {<<"reset", CodeOf(e)>>})]
     ELSE a
 
 \* ---- quiescence --------------------------------------------------------------------------
